@@ -201,19 +201,19 @@ theorem endSiteOk_of_getLast (S : Schema) : ∀ (l : List Node) (t : TypeId) (a 
   | [x], t, a, m, k, n, h => by
     simp only [List.getLast?_singleton, Option.some.injEq] at h
     subst h
-    simp [Schema.endSiteOk]
+    simp [Schema.endSiteOk, Schema.endSiteNode]
   | x :: y :: ys, t, a, m, k, n, h => by
     rw [List.getLast?_cons_cons] at h
     have := endSiteOk_of_getLast S (y :: ys) t a m k n h
     rw [← this]
-    simp [Schema.endSiteOk]
+    simp [Schema.endSiteOk, Schema.endSiteNode]
 
 theorem endSiteOk_zero (S : Schema) : ∀ (l : List Node), S.endSiteOk l 0 = true
-  | [] => by simp [Schema.endSiteOk]
-  | [x] => by cases x <;> simp [Schema.endSiteOk]
+  | [] => by simp [Schema.endSiteOk, Schema.endSiteNode]
+  | [x] => by cases x <;> simp [Schema.endSiteOk, Schema.endSiteNode]
   | x :: y :: ys => by
     have := endSiteOk_zero S (y :: ys)
-    simpa [Schema.endSiteOk] using this
+    simpa [Schema.endSiteOk, Schema.endSiteNode] using this
 
 /-- **pushing the open end returns** when the last-child chain is long enough and satisfies the end-site condition -/
 theorem pushOpenEnd_total (S : Schema) : ∀ (n : Nat) (cur : List Node) (fr : List FItem), n ≤ spineR cur →
@@ -610,7 +610,7 @@ theorem endChainOk_of_getLast (S : Schema) : ∀ (l : List Node) (x : Node), l.g
   | y :: z :: zs, x, h => by
     rw [List.getLast?_cons_cons] at h
     rw [← endChainOk_of_getLast S (z :: zs) x h]
-    simp [Schema.endChainOk]
+    simp [Schema.endChainOk, Schema.endChainNode]
 
 theorem endChainOk_drop (S : Schema) (l : List Node) (n : Nat) (h : S.endChainOk l = true) :
     S.endChainOk (l.drop n) = true := by
@@ -618,7 +618,7 @@ theorem endChainOk_drop (S : Schema) (l : List Node) (n : Nat) (h : S.endChainOk
   | none =>
     have : l.drop n = [] := by simpa using hl
     rw [this]
-    simp [Schema.endChainOk]
+    simp [Schema.endChainOk, Schema.endChainNode]
   | some x =>
     have hne : l.drop n ≠ [] := by intro h0; rw [h0] at hl; simp at hl
     have hl' : l.getLast? = some x := by
@@ -644,13 +644,13 @@ theorem dropFromFragment_endChain (S : Schema) : ∀ (d : Nat) (c c' : List Node
       subst this
       cases rest with
       | nil =>
-        simp only [Schema.endChainOk, Bool.and_eq_true] at hc ⊢
+        simp only [Schema.endChainOk, Schema.endChainNode, List.isEmpty_nil, if_true, Bool.and_eq_true] at hc ⊢
         obtain ⟨n, hn⟩ := dropFromFragment_types S d kids inner count hi
         refine ⟨?_, dropFromFragment_endChain S d kids inner count hi hc.2⟩
         rw [hn]
         exact suffixAll_drop _ n _ hc.1
       | cons y ys =>
-        simpa [Schema.endChainOk] using hc
+        simpa [Schema.endChainOk, Schema.endChainNode] using hc
     · simp [throw, throwThe, MonadExceptOf.throw] at h
 
 /-- a property of the unplaced content that holds of the empty content and is kept by `drop_from_fragment` -/
@@ -709,7 +709,7 @@ theorem fitStep_content {P : List Node → Prop} (hP : DropStable P) (S : Schema
 
 theorem openPrefix_stable (S : Schema) :
     DropStable (fun c => S.fillableKids c = true ∧ S.endChainOk c = true) :=
-  ⟨⟨by simp [Schema.fillableKids], by simp [Schema.endChainOk]⟩,
+  ⟨⟨by simp [Schema.fillableKids], by simp [Schema.endChainOk, Schema.endChainNode]⟩,
    fun d c c' count h hp => ⟨dropFromFragment_fillable S d c c' count h hp.1, dropFromFragment_endChain S d c c' count h hp.2⟩⟩
 
 /-- the static guard gives the start-site condition for every open depth -/
@@ -727,18 +727,18 @@ theorem startSiteOk_of_fillable (S : Schema) : ∀ (os : Nat) (c : List Node), S
 /-- … and the end-site condition for every open depth -/
 theorem endSiteOk_of_endChain (S : Schema) : ∀ (c : List Node) (oe : Nat), S.endChainOk c = true →
     S.endSiteOk c oe = true
-  | [], _, _ => by simp [Schema.endSiteOk]
-  | [.text _ _], _, _ => by simp [Schema.endSiteOk]
-  | [.leaf _ _ _], _, _ => by simp [Schema.endSiteOk]
+  | [], _, _ => by simp [Schema.endSiteOk, Schema.endSiteNode]
+  | [.text _ _], _, _ => by simp [Schema.endSiteOk, Schema.endSiteNode]
+  | [.leaf _ _ _], _, _ => by simp [Schema.endSiteOk, Schema.endSiteNode]
   | [.elem t a m k], 0, _ => endSiteOk_zero S _
   | [.elem t a m k], oe + 1, h => by
-    simp only [Schema.endChainOk, Bool.and_eq_true] at h
+    simp only [Schema.endChainOk, Schema.endChainNode, List.isEmpty_nil, if_true, Bool.and_eq_true] at h
     rw [endSiteOk_of_getLast S _ t a m k oe rfl, Bool.and_eq_true]
     exact ⟨suffixAll_head _ _ h.1, endSiteOk_of_endChain S k oe h.2⟩
   | x :: y :: ys, oe, h => by
-    have h' : S.endChainOk (y :: ys) = true := by simpa [Schema.endChainOk] using h
+    have h' : S.endChainOk (y :: ys) = true := by simpa [Schema.endChainOk, Schema.endChainNode] using h
     have := endSiteOk_of_endChain S (y :: ys) oe h'
-    simpa [Schema.endSiteOk] using this
+    simpa [Schema.endSiteOk, Schema.endSiteNode] using this
 
 theorem sitesOk_of_openPrefix (S : Schema) (u : Slice) (h1 : S.fillableKids u.content = true)
     (h2 : S.endChainOk u.content = true) : u.sitesOk S = true := by
